@@ -34,7 +34,10 @@ Proof. intros Hc Ha Hr k _. rewrite Hc, Ha, Hr. auto. Qed.
 Lemma decay_delete_access K x k0 : decay K x (delete_access x k0).
 Proof. intros k _. cbn. repeat split; auto. upd_case k k0; auto. Qed.
 Lemma decay_revoke_access K x X : decay K x (revoke_access x X).
-Proof. unfold revoke_access. destruct (at_idx x X); [apply decay_delete_access|apply decay_refl]. Qed.
+Proof.
+  intros k _. unfold revoke_access. cbn. repeat split; auto.
+  unfold drop_rid. destruct (access x k) as [r|]; [|auto]. destruct (Nat.eqb (r_id r) X); auto.
+Qed.
 Lemma decay_delete_refresh K x k0 : decay K x (delete_refresh x k0).
 Proof. intros k _. cbn. repeat split; auto. upd_case k k0; auto. Qed.
 Lemma decay_revoke_refresh K x X : decay K x (fst (revoke_refresh x X)).
@@ -178,7 +181,7 @@ Proof.
       eapply (decay_trans _ _ (st s1)); [apply decay_eq_tables; reflexivity|exact (decay_authorize_core cfg s1 cl a')] end.
   - match goal with |- context [device_authorize cfg s ?x1 ?x2 ?x3 ?x4] => destruct (device_authorize_tables cfg s x1 x2 x3 x4) as [Hc [Ha [Hr _]]] end.
     now apply decay_eq_tables.
-  - match goal with |- context [decide cfg s ?x1 ?x2 ?x3 ?x4 ?x5] => destruct (decide_tables cfg s x1 x2 x3 x4 x5) as [Hc [Ha [Hr _]]] end.
+  - match goal with |- context [decide cfg s ?x1 ?x2 ?x3 ?x4 ?x5 ?x6] => destruct (decide_tables cfg s x1 x2 x3 x4 x5 x6) as [Hc [Ha [Hr _]]] end.
     now apply decay_eq_tables.
   - unfold device_poll.
     destruct auth as [c|]; [|apply decay_refl]. destruct (clients s c) as [cl|]; [|apply decay_refl].
